@@ -9,6 +9,7 @@ func All() []core.Prop {
 		C08{},
 		C13{},
 		C14{},
+		C17{},
 	}
 }
 
